@@ -54,7 +54,7 @@ PROPS = {
     "C03": dict(
         module="OrbitModel.Properties.C03",
         theorems=["Orbit.C03.visible_entries_are_authored_by_writers", "Orbit.C03.forged_or_unauthorised_never_visible",
-                  "Orbit.C03.local_write_by_non_writer_fails", "Orbit.C03.pinned_tree_accepts_copied_id"],
+                  "Orbit.C03.local_write_by_non_writer_fails", "Orbit.C03.pinned_tree_accepts_copied_id", "Orbit.C03.reload_route_joins_only_this_logs_entries"],
         families=[("forge", 150, 4000, 10)],
         corr_fields={"values", "heads", "idx", "len", "ack", "sync", "loadq", "rev"},
         nontrivial=lambda lines: sum(1 for l in lines if l.startswith("forged ") and " err" not in l) >= 1 and sum(1 for l in lines if l.startswith("op inject")) >= 1,
@@ -66,7 +66,7 @@ PROPS = {
         module="OrbitModel.Properties.C04",
         theorems=["Orbit.C04.only_verified_same_database_entries_merged", "Orbit.C04.held_entries_unaffected",
                   "Orbit.C04.batch_merges_only_verified", "Orbit.C04.misaddressed_head_refused",
-                  "Orbit.C04.listed_entries_are_members", "Orbit.C04.pinned_foreign_entry_becomes_head"],
+                  "Orbit.C04.listed_entries_are_members", "Orbit.C04.pinned_foreign_entry_becomes_head", "Orbit.C04.load_hands_only_own_entries_to_join", "Orbit.C04.foreign_entry_came_back_through_load_before_the_fix"],
         families=[("forge", 150, 4000, 10)],
         corr_fields={"values", "heads", "idx", "len", "sync", "loadq", "rev"},
         nontrivial=lambda lines: sum(1 for l in lines if l.startswith("forged ") and " err" not in l) >= 1 and sum(1 for l in lines if l.startswith("op inject")) >= 1,
@@ -78,8 +78,8 @@ PROPS = {
         module="OrbitModel.Properties.C05",
         theorems=["Orbit.C05.reload_sources_tied_to_go_text", "Orbit.C05.persistence_order_tied_to_go_text", "Orbit.C05.acknowledged_survive_any_crash", "Orbit.C05.cached_heads_cover_the_log",
                   "Orbit.C05.replication_never_forgets_cached_heads", "Orbit.C05.on_fully_loaded_stores_the_cache_is_the_heads_of_the_log",
-                  "Orbit.C05.limited_load_then_replication_forgot_a_branch_before_the_fix"],
-        families=[("routes", 100, 3000, 14), ("kv", 40, 1000, 12), ("reload", 40, 1000, 12), ("limit", 40, 1000, 12)],
+                  "Orbit.C05.limited_load_then_replication_forgot_a_branch_before_the_fix", "Orbit.C05.reload_joins_only_entries_join_accepts", "Orbit.C05.refused_ancestor_lost_the_valid_entries_above_it_before_the_fix"],
+        families=[("routes", 100, 3000, 14), ("kv", 40, 1000, 12), ("reload", 40, 1000, 12), ("limit", 40, 1000, 12), ("forge", 30, 800, 10)],
         corr_fields={"values", "heads", "idx", "len", "local", "remote", "load", "rev"},
         nontrivial=lambda lines: any(l.startswith("restarted ") for l in lines) and sum(1 for l in lines if l.startswith("entry ")) >= 2,
         rule="histories of writes and replications by every route with instance restarts (close everything, new instance on the same keystore and cache, Load(-1)) at PRNG-chosen moments; after every step the cached heads must cover the whole log (the crash-prefix invariant) and after every restart the identity must be the same and the recovered state must equal the pre-restart state; non-trivial = at least one restart with >= 2 entries",
@@ -209,7 +209,7 @@ PROPS = {
         theorems=["Orbit.C14.address_root_is_the_manifest", "Orbit.C14.different_inputs_different_addresses",
                   "Orbit.C14.printed_address_parses_back", "Orbit.C14.accepted_names", "Orbit.C14.create_over_existing_is_refused",
                   "Orbit.C14.local_only_open_of_unknown_is_refused", "Orbit.C14.open_yields_recorded_type_and_write_list",
-                  "Orbit.C14.create_then_open_anywhere", "Orbit.C14.create_address_is_determined_by_inputs", "Orbit.C14.pinned_tree_answered_a_foreign_address"],
+                  "Orbit.C14.create_then_open_anywhere", "Orbit.C14.create_address_is_determined_by_inputs", "Orbit.C14.pinned_tree_answered_a_foreign_address", "Orbit.C14.accepted_address_prints_as_the_same_database", "Orbit.C14.climbing_address_was_opened_as_another_database_before_the_fix"],
         families=[("address", 80, 2500, 10)],
         corr_fields={"values", "idx", "create", "open", "addr", "pathjoin"},
         nontrivial=lambda lines: sum(1 for l in lines if l.startswith(("detaddr ", "created ", "opened ", "parsed "))) >= 3,
@@ -287,7 +287,7 @@ MANIFEST_TEXT = {
         note="Trusted: Lean kernel + standard axioms; the JSON codec of one entry is a parameter with a left inverse (sampled by the harness); the unixfs file layer is a fake that stores files whole.",
         technique="Lean 4 proof (codec round-trip by induction; rebuilt log joins to the same entries/order/heads) with differential correspondence on real save/load"),
     "C14": dict(
-        text="Kernel-checked theorems over a segment-list model of Go's path.Join/Clean: the address answered names the manifest the inputs were hashed into; with an injective manifest hash different (name, type, access controller) give different addresses; every answered address prints and parses back to itself; the accepted names are characterised exactly; over a model of Create/Open written in the order of the Go code: creating over an existing local database is refused unless overwrite, a local-only open of an unknown database is refused, an open yields the recorded type and write list whatever options are passed, and what Create returned is what every later Open returns on this and on any other instance. The pinned tree answered another database's address for a climbing name (decide-checked witness, replayed on the real code before the fix: commit). The address family compares DetermineAddress/Create/Open/Parse on 2-3 real peers with the model over adversarial names, store types and write lists.",
+        text="Kernel-checked theorems over a segment-list model of Go's path.Join/Clean: the address answered names the manifest the inputs were hashed into; with an injective manifest hash different (name, type, access controller) give different addresses; every answered address prints and parses back to itself; the accepted names are characterised exactly; over a model of Create/Open written in the order of the Go code: creating over an existing local database is refused unless overwrite, a local-only open of an unknown database is refused, an open yields the recorded type and write list whatever options are passed, and what Create returned is what every later Open returns on this and on any other instance. The pinned tree answered another database's address for a climbing name (decide-checked witness, replayed on the real code before the fix: commit). Whatever string Open accepts as an address prints as an address of the same database (address.Parse refuses a path that climbs out of its root: finding F28, fix: commit, with a decide-checked witness of the old split). The address family compares DetermineAddress/Create/Open/Parse on 2-3 real peers with the model over adversarial names, store types, write lists and user-supplied address spellings.",
         note="Trusted: Lean kernel + standard axioms; injectivity of the manifest CID (hash + dag-cbor) is a hypothesis; the Create/Open model is hand-written (its abstractions are listed at the top of Model/OpenCreate.lean) and run against the real instance on every create/open of the address family; only the default ipfs access controller is modelled.",
         technique="Lean 4 proof (path cleaning lemmas, parse/print inverse, injectivity) with differential correspondence over adversarial names"),
     "C15": dict(
@@ -327,15 +327,15 @@ MANIFEST_TEXT = {
         note="Partial: delivery over real libp2p streams/pubsub is runtime behaviour replaced by fakes; the pubsubraw adapter is not exercised. Exactly-once assumes duplicate-free snapshots (stated in the theorem).",
         technique="Lean 4 proof (list/bit-vector lemmas; translator for the frame guard) with differential correspondence over scripted transports"),
     "C03": dict(
-        text="Kernel-checked theorem with NO order or honesty hypothesis on incoming content: after any sequence of allowed/denied local appends and joins of arbitrary fetched logs, every listed entry names a writer of the list (or the list is the wildcard), is signed with that writer's key under a genuine identity block, and belongs to the database; a denied local write changes nothing visible. The pinned CanAppend (id only) is refuted by a decide-checked witness that was replayed on the real code before the fix: commit adding VerifyEntryAuthor. The harness builds forged entries with the real entry package and a second signer, measures their flags on the real objects, delivers them by every route, and evaluates the membership predicate on every observation; a quarter of the scenarios run under the `simple` access controller (write list passed by every peer at every open) instead of the default `ipfs` one.",
+        text="Kernel-checked theorem with NO order or honesty hypothesis on incoming content: after any sequence of allowed/denied local appends and joins of arbitrary fetched logs, every listed entry names a writer of the list (or the list is the wildcard), is signed with that writer's key under a genuine identity block, and belongs to the database; a denied local write changes nothing visible. The pinned CanAppend (id only) is refuted by a decide-checked witness that was replayed on the real code before the fix: commit adding VerifyEntryAuthor. The harness builds forged entries with the real entry package and a second signer, measures their flags on the real objects, delivers them by every route, and evaluates the membership predicate on every observation; a quarter of the scenarios run under the `simple` access controller (write list passed by every peer at every open) instead of the default `ipfs` one; half of the scenarios end with every replica restarted and reloaded (the reload route: finding F27, fix: commit — Load now joins only the entries written for this log).",
         note="Trusted: Lean kernel + standard axioms; unforgeability of secp256k1 signatures and 'identity block genuine' are represented by measured flags; the hand-written model of Join/CanAppend/Sync validated by correspondence; the replicator's log-id filter is a hypothesis of the reachability relation (its code is exercised by the harness).",
         technique="Lean 4 proof (membership invariant over adversarial reachability) with differential correspondence on forged entries"),
     "C04": dict(
-        text="Kernel-checked theorems: whatever log is handed to Join, everything it adds passed the access check, verifies and carries this database's id, and nothing held is lost; the same for a whole batch with rejected logs; a wrongly addressed head aborts Sync; every listed entry is a member. The dependency's Join still merges foreign heads (decide-checked witness); the fix: commit in the replicator keeps such entries away from Join, and the harness checks on the real code that no tampered / foreign entry is ever listed and that Len() matches the listing.",
+        text="Kernel-checked theorems: whatever log is handed to Join, everything it adds passed the access check, verifies and carries this database's id, and nothing held is lost; the same for a whole batch with rejected logs; a wrongly addressed head aborts Sync; every listed entry is a member. The dependency's Join still merges foreign heads (decide-checked witness); the fix: commit in the replicator keeps such entries away from Join, and the harness checks on the real code that no tampered / foreign entry is ever listed and that Len() matches the listing. The reload route (Load after a restart) hands only this log's entries to Join (proved; before the fix: commit F27 an entry of another log named in a writer's refs came back as a head: decide-checked witness, replayed on the real store).",
         note="Trusted: Lean kernel + standard axioms; content addressing (HashDet); the mapping from wire-form mutations to the model's flags is measured by the harness with the real Verify / re-encode.",
         technique="Lean 4 proof (Join adds only acceptable entries; monotonicity) with differential correspondence on tampered entries"),
     "C05": dict(
-        text="Kernel-checked theorem over explicit persistence-effect traces: for every valid history and EVERY prefix of its effect trace (every crash point), recovery returns every acknowledged write and every entry reported as replicated, only entries whose block was written, an ancestry-closed set, listed exactly as the pre-crash listing restricted to it; mechanism: the cached heads cover the log at every reachable store state. The harness restarts real instances over the same keystore and cache at random moments, compares the recovered state and identity, and evaluates 'cached heads cover the log' after every step of every scenario (the invariant from which every crash point follows). A replication round never forgets a cached head the log does not hold (proved for every store state and every batch: a store opened with Load(n) holds only part of what its cache points to); before the fix: commit F26 it did (decide-checked witness, replayed on the real store), and the limit family now lets partially loaded stores replicate and write before the final unlimited load, which must bring back everything ever listed or acknowledged.",
+        text="Kernel-checked theorem over explicit persistence-effect traces: for every valid history and EVERY prefix of its effect trace (every crash point), recovery returns every acknowledged write and every entry reported as replicated, only entries whose block was written, an ancestry-closed set, listed exactly as the pre-crash listing restricted to it; mechanism: the cached heads cover the log at every reachable store state. The harness restarts real instances over the same keystore and cache at random moments, compares the recovered state and identity, and evaluates 'cached heads cover the log' after every step of every scenario (the invariant from which every crash point follows). A replication round never forgets a cached head the log does not hold (proved for every store state and every batch: a store opened with Load(n) holds only part of what its cache points to); before the fix: commit F26 it did (decide-checked witness, replayed on the real store), and the limit family now lets partially loaded stores replicate and write before the final unlimited load, which must bring back everything ever listed or acknowledged. After a restart Load hands Join only entries of this log that Join accepts (proved), so a refused entry in the ancestry no longer costs the valid entries above it (finding F29, fix: commit, decide-checked witness); the forge family (forged, tampered, foreign entries behind colluding writers) restarts its replicas and is run under this property's recover predicate too.",
         note="Partial where the truth is in the runtime: durability/atomicity of each datastore call is the property's own assumption; leveldb is replaced by in-memory datastores; crash points are covered by the theorem plus the per-step invariant check rather than by killing processes.",
         technique="Lean 4 proof (effect-trace prefixes, durable-log invariant) with differential correspondence including restarts"),
     "C02": dict(
